@@ -142,6 +142,17 @@ func (s *PFCPSession) MarkSessionQer(qers []qer) {
 }
 
 // RemoveQER removes qer from existing list of QERs in the session.
+// CopyQosLevels labels the QERs of the current message like their stored counterparts.
+func (s *PFCPSession) CopyQosLevels(qers []qer) {
+	for i := range qers {
+		for _, stored := range s.qers {
+			if stored.qerID == qers[i].qerID {
+				qers[i].qosLevel = stored.qosLevel
+			}
+		}
+	}
+}
+
 func (s *PFCPSession) RemoveQER(id uint32) (*qer, error) {
 	for idx, v := range s.qers {
 		if v.qerID == id {
